@@ -17,6 +17,7 @@ mod cli;
 mod testrun;
 mod updaterun;
 mod testrun_script;
+mod hunt;
 
 use common::*;
 use std::sync::Mutex;
@@ -44,6 +45,9 @@ fn main() {
     // panics inside scrut are caught per case; keep stderr quiet
     std::panic::set_hook(Box::new(|_| {}));
     if let Some(r) = replay {
+        if hunt::is_hunt_op(&r) {
+            std::process::exit(if hunt::replay(&prop, &r) { 0 } else { 1 });
+        }
         let ok = match prop.as_str() {
             "C01" | "C02" | "C03" => matcher::replay(&r),
             // C05 / C20 have a second harness module: the integrated end-to-end stream of testrun.rs (op `testdoc`)
@@ -112,6 +116,8 @@ fn main() {
         }
         _ => { eprintln!("unknown property {prop}"); std::process::exit(2); }
     }
+    // the corpus of violations that were demonstrated on the real binary (regression cases and open findings)
+    hunt::run(&ctx, &prop);
     let rep = ctx.report.lock().unwrap();
     let js = serde_json::to_string_pretty(&*rep).unwrap();
     if out.is_empty() { println!("{js}"); } else { std::fs::write(&out, js).expect("write report"); }
